@@ -224,3 +224,12 @@ func (c *Ctx) watchdog(d time.Duration, kind string, input func() interface{}, f
 		os.Exit(0)
 	}
 }
+
+// otherModelCases: the models of the other extension parsers (Footnote, Typographer /
+// DefinitionList, the heading options), whose totality, well-formedness and safe-mode theorems are
+// listed under this property too, against goldmark on the documents of this run
+func otherModelCases(c *Ctx, items []docItem, max int) {
+	footnoteModelCases(c, items, max)
+	typoDefModelCases(c, items, max)
+	headingOptModelCases(c, items, max)
+}
